@@ -13,6 +13,7 @@ class Fn:
         self.ret = None
         self.locals = {}      # id -> type str
         self.blocks = {}      # id -> Block
+        self.debug = {}       # source variable name -> local id (first binding wins)
         self.line = 0
 
 
@@ -80,6 +81,13 @@ def parse(path):
                             cur.args.append((mm.group(1), mm.group(2)))
                             cur.locals[mm.group(1)] = mm.group(2)
                     cur.locals["_0"] = cur.ret
+                elif line.startswith("const ") and line.endswith("= {"):
+                    m = re.match(r"^const (.+::promoted\[\d+\]): (.+) = \{$", line)
+                    if m:
+                        cur = Fn(m.group(1), line)
+                        cur.line = ln
+                        cur.ret = m.group(2)
+                        cur.locals["_0"] = cur.ret
                 continue
             if line == "}":
                 fns.setdefault(cur.name, cur)
@@ -90,6 +98,10 @@ def parse(path):
                 m = re.match(r"^let (?:mut )?(_\d+): (.*);$", s)
                 if m:
                     cur.locals[m.group(1)] = m.group(2)
+                    continue
+                m = re.match(r"^debug (\w+) => (_\d+);$", s)
+                if m:
+                    cur.debug.setdefault(m.group(1), m.group(2))
                     continue
                 m = re.match(r"^(bb\d+)(?: \(cleanup\))?: \{$", s)
                 if m:
